@@ -10,6 +10,14 @@ NOTES = "All checks rebuild from /repo's working tree through bin/prepare (instr
 NOT_APPLICABLE = {}
 A_NOTE = "Trusted: the vrt shims model Go's mutex/cond/channel/select/timer semantics faithfully (self-tests + repository tests pass on the instrumented build in passthrough mode); sequential consistency; scheduling points before acquire-type operations only; data races are left to a separate -race pass."
 CHECKS = {
+    "C18": {
+        "engine": "enumx",
+        "category": "exploration",
+        "technique": "small-scope exhaustive input enumeration (bounded-exhaustive, not sampled): every metadata variant x spec kind through every encoding; every truncation / single-byte substitution / short byte string through every decoder",
+        "text": "Round trip: 2448 resources (each metadata field over a 29-string alphabet hostile to YAML and protobuf, all 841 label and all 841 annotation key x value pairs, finalizer lists, versions up to 2^63-1, both phases, timestamps incl. zero, pre-epoch, nanoseconds, non-UTC; 4 spec kinds: int, string, a protobuf ResourceSpec, a dynamic protoenc spec) x 10 encodings (wire form, store marshaler, zstd at thresholds 0 / exactly len / len+1, AES-GCM, zstd(aes), aes(zstd), aes(zstd below threshold), YAML): decode(encode(x)) == x by Metadata.Equal + timestamps at the format's precision + spec. Text forms of version and phase parse back. Totality: for 6 seed encodings per codec every truncation, 6 substitutions at every offset and a one-byte extension, all byte strings of length <= 3 over 5 values, and the same for wire-form and YAML documents (39k decoder inputs): an error or a usable resource, never a panic; for encrypted records every such tamper and a wrong key must be an error. This decides the property for inputs in the stated scope only.",
+        "design_ref": "DESIGN.md 3/C18",
+        "note": "Level is exploration (bounded-exhaustive enumeration of a stated input scope, no scheduler involved). Trusted: yaml/protobuf/zstd libraries; comparison by Metadata.Equal and a spec renderer.",
+    },
     "C19": {
         "engine": "enumeration on gosched (deterministic schedule)",
         "technique": "exhaustive enumeration of API call sequences (each run to exact quiescence on the controlled scheduler) x every held object x every public mutation, with a full re-read of the store after each mutation, plus a copy-on-write law on metadata copies",
